@@ -3,10 +3,11 @@
   `parse_simple`, `parse_instr`, `parse_trap`, the `expect_*` family with its range checks, and the
   statement-span computation (`tok_end`).
 
-  Loops that consume input take `fuel`; `preprocess` is started with `length src + 1`, the parser
-  with `length tokens + 1`, and running out of fuel is reported as `panic "fuel"` so that the
-  no-panic theorem of C05 also says that this much fuel always suffices (each iteration consumes
-  at least one character / token).
+  Each loop is a step function (one iteration of the Rust loop: `preprocessStep`, `parseStep`)
+  driven by a fuel-bounded driver (`preprocessLoop`, `parseLoop`).  `preprocess` is started with
+  `length src + 1`, the parser with `length tokens + 1`; running out of fuel is reported as
+  `panic "fuel"` so that the no-panic theorem of C05 also says that this much fuel always suffices
+  (each iteration consumes at least one character / token).
 
   Import-free (core Lean only).
 -/
@@ -252,8 +253,36 @@ def expectLitOrLabel (srcLen : Nat) (tbl : SymTab) (line : Nat) (bits : Nat) (to
       | .panic s => .panic s
     | _ => unexpectedDiag t
 
-/-- two registers -/
-def expectReg2 (srcLen : Nat) (toks : List Token) : Res (BitVec 3 × BitVec 3 × List Token × Nat) :=
+/-- What `parse_instr` / `parse_trap` return: the statement, the remaining tokens and `tok_end`
+(`none` = no operand was consumed, `tok_end` keeps its old value). -/
+abbrev StmtRes := Res (Stmt × List Token × Option Nat)
+
+/-- one register operand -/
+def piReg1 (srcLen : Nat) (toks : List Token) (f : BitVec 3 → Stmt) : StmtRes :=
+  match expectReg srcLen toks with
+  | .ok (r, ts, te) => .ok (f r, ts, some te)
+  | .diag k s => .diag k s
+  | .panic s => .panic s
+
+/-- one label-or-literal operand of `bits` bits -/
+def piLbl (srcLen : Nat) (tbl : SymTab) (line bits : Nat) (toks : List Token) (f : Label → Stmt) :
+    StmtRes :=
+  match expectLitOrLabel srcLen tbl line bits toks with
+  | .ok (l, ts, te) => .ok (f l, ts, some te)
+  | .diag k s => .diag k s
+  | .panic s => .panic s
+
+/-- a register, then a 9-bit label-or-literal -/
+def piRegLbl (srcLen : Nat) (tbl : SymTab) (line : Nat) (toks : List Token)
+    (f : BitVec 3 → Label → Stmt) : StmtRes :=
+  match expectReg srcLen toks with
+  | .ok (r, ts, _) => piLbl srcLen tbl line 9 ts (f r)
+  | .diag k s => .diag k s
+  | .panic s => .panic s
+
+/-- two registers, then a 6-bit literal cast to `u8` -/
+def piReg2Lit (srcLen : Nat) (toks : List Token) (f : BitVec 3 → BitVec 3 → BitVec 8 → Stmt) :
+    StmtRes :=
   match expectReg srcLen toks with
   | .diag k s => .diag k s
   | .panic s => .panic s
@@ -261,78 +290,70 @@ def expectReg2 (srcLen : Nat) (toks : List Token) : Res (BitVec 3 × BitVec 3 ×
     match expectReg srcLen ts with
     | .diag k s => .diag k s
     | .panic s => .panic s
-    | .ok (b, ts', te) => .ok (a, b, ts', te)
+    | .ok (b, ts', _) =>
+      match expectLit srcLen (.signed 6) ts' with
+      | .ok (v, ts'', te) => .ok (f a b (v.setWidth 8), ts'', some te)
+      | .diag k s => .diag k s
+      | .panic s => .panic s
 
-/-- `parse_instr(kind)`: the statement, the remaining tokens and `tok_end` (`none` = no operand
-was consumed, `tok_end` keeps its old value). -/
+/-- two registers, then a register or a 5-bit literal -/
+def piReg2Imm (srcLen : Nat) (toks : List Token) (f : BitVec 3 → BitVec 3 → ImmOrReg → Stmt) :
+    StmtRes :=
+  match expectReg srcLen toks with
+  | .diag k s => .diag k s
+  | .panic s => .panic s
+  | .ok (a, ts, _) =>
+    match expectReg srcLen ts with
+    | .diag k s => .diag k s
+    | .panic s => .panic s
+    | .ok (b, ts', _) =>
+      match expectLitOrReg srcLen ts' with
+      | .ok (x, ts'', te) => .ok (f a b x, ts'', some te)
+      | .diag k s => .diag k s
+      | .panic s => .panic s
+
+/-- two registers -/
+def piReg2 (srcLen : Nat) (toks : List Token) (f : BitVec 3 → BitVec 3 → Stmt) : StmtRes :=
+  match expectReg srcLen toks with
+  | .diag k s => .diag k s
+  | .panic s => .panic s
+  | .ok (a, ts, _) =>
+    match expectReg srcLen ts with
+    | .diag k s => .diag k s
+    | .panic s => .panic s
+    | .ok (b, ts', te) => .ok (f a b, ts', some te)
+
+/-- `parse_instr(kind)` -/
 def parseInstr (srcLen : Nat) (tbl : SymTab) (line : Nat) (kind : InstrKind) (toks : List Token) :
-    Res (Stmt × List Token × Option Nat) :=
-  let reg1 (f : BitVec 3 → Stmt) : Res (Stmt × List Token × Option Nat) :=
-    match expectReg srcLen toks with
-    | .ok (r, ts, te) => .ok (f r, ts, some te)
-    | .diag k s => .diag k s
-    | .panic s => .panic s
-  let lbl (bits : Nat) (ts0 : List Token) (f : Label → Stmt) : Res (Stmt × List Token × Option Nat) :=
-    match expectLitOrLabel srcLen tbl line bits ts0 with
-    | .ok (l, ts, te) => .ok (f l, ts, some te)
-    | .diag k s => .diag k s
-    | .panic s => .panic s
-  let regLbl (f : BitVec 3 → Label → Stmt) : Res (Stmt × List Token × Option Nat) :=
-    match expectReg srcLen toks with
-    | .ok (r, ts, _) => lbl 9 ts (f r)
-    | .diag k s => .diag k s
-    | .panic s => .panic s
-  let reg2Lit (f : BitVec 3 → BitVec 3 → BitVec 8 → Stmt) : Res (Stmt × List Token × Option Nat) :=
-    match expectReg2 srcLen toks with
-    | .diag k s => .diag k s
-    | .panic s => .panic s
-    | .ok (a, b, ts, _) =>
-      match expectLit srcLen (.signed 6) ts with
-      | .ok (v, ts', te) => .ok (f a b (v.setWidth 8), ts', some te)
-      | .diag k s => .diag k s
-      | .panic s => .panic s
-  let reg2Imm (f : BitVec 3 → BitVec 3 → ImmOrReg → Stmt) : Res (Stmt × List Token × Option Nat) :=
-    match expectReg2 srcLen toks with
-    | .diag k s => .diag k s
-    | .panic s => .panic s
-    | .ok (a, b, ts, _) =>
-      match expectLitOrReg srcLen ts with
-      | .ok (x, ts', te) => .ok (f a b x, ts', some te)
-      | .diag k s => .diag k s
-      | .panic s => .panic s
+    StmtRes :=
   match kind with
-  | .push => reg1 .push
-  | .pop => reg1 .pop
+  | .push => piReg1 srcLen toks .push
+  | .pop => piReg1 srcLen toks .pop
   | .call =>
     match expectWhere srcLen (fun k => k = .label) toks with
     | .ok (lt, ts, te) => .ok (.call (Label.tryFill tbl lt.text), ts, some te)
     | .diag k s => .diag k s
     | .panic s => .panic s
   | .rets => .ok (.rets, toks, none)
-  | .add => reg2Imm .add
-  | .and => reg2Imm .and
-  | .br f => lbl 9 toks (.branch f)
-  | .jmp => reg1 .jump
-  | .jsr => lbl 11 toks .jumpSub
-  | .jsrr => reg1 .jumpSubReg
-  | .ld => regLbl .load
-  | .ldi => regLbl .loadInd
-  | .ldr => reg2Lit .loadOffs
-  | .lea => regLbl .loadEAddr
-  | .not =>
-    match expectReg2 srcLen toks with
-    | .ok (a, b, ts, te) => .ok (.not a b, ts, some te)
-    | .diag k s => .diag k s
-    | .panic s => .panic s
+  | .add => piReg2Imm srcLen toks .add
+  | .and => piReg2Imm srcLen toks .and
+  | .br f => piLbl srcLen tbl line 9 toks (.branch f)
+  | .jmp => piReg1 srcLen toks .jump
+  | .jsr => piLbl srcLen tbl line 11 toks .jumpSub
+  | .jsrr => piReg1 srcLen toks .jumpSubReg
+  | .ld => piRegLbl srcLen tbl line toks .load
+  | .ldi => piRegLbl srcLen tbl line toks .loadInd
+  | .ldr => piReg2Lit srcLen toks .loadOffs
+  | .lea => piRegLbl srcLen tbl line toks .loadEAddr
+  | .not => piReg2 srcLen toks .not
   | .ret => .ok (.ret, toks, none)
   | .rti => .ok (.interrupt, toks, none)
-  | .st => regLbl .store
-  | .sti => regLbl .storeInd
-  | .str => reg2Lit .storeOffs
+  | .st => piRegLbl srcLen tbl line toks .store
+  | .sti => piRegLbl srcLen tbl line toks .storeInd
+  | .str => piReg2Lit srcLen toks .storeOffs
 
 /-- `parse_trap(kind)` -/
-def parseTrap (srcLen : Nat) (kind : TrapKind) (toks : List Token) :
-    Res (Stmt × List Token × Option Nat) :=
+def parseTrap (srcLen : Nat) (kind : TrapKind) (toks : List Token) : StmtRes :=
   match kind with
   | .generic =>
     match expectLit srcLen (.unsigned 8) toks with
